@@ -217,12 +217,13 @@ type dstruct struct {
 }
 
 type dpkg struct {
-	structs   []dstruct
-	intEq10   bool
-	intOrdRev bool
-	intProd   bool
-	monoidInt bool
-	recFlag   bool // @fp.Derive(recursive=true) on the last struct only, nested ones not derived explicitly
+	structs       []dstruct
+	intEq10       bool
+	intOrdRev     bool
+	intProd       bool
+	monoidInt     bool
+	recFlag       bool // @fp.Derive(recursive=true) on the last struct only, nested ones not derived explicitly
+	excludedKnown bool
 }
 
 var dClasses = []string{"Eq", "Ord", "Hashable", "Monoid", "Clone", "Show"}
@@ -282,19 +283,27 @@ func drawDPkg(t *rapid.T, excl map[string]bool) dpkg {
 	p.intOrdRev = rapid.IntRange(0, 3).Draw(t, "overrideOrdInt") == 0
 	p.intProd = rapid.Bool().Draw(t, "monoidIntProduct")
 	n := rapid.IntRange(1, 3).Draw(t, "nstructs")
+	// recursive=true: only the last struct carries directives, nested structs get their instances implicitly
+	p.recFlag = n >= 2 && rapid.IntRange(0, 2).Draw(t, "recursiveFlag") == 0
+	var pkgClasses []string
 	var nested []dty
 	for i := 0; i < n; i++ {
 		s := dstruct{name: fmt.Sprintf("D%d", i+1)}
 		// classes to derive for this struct
-		k := rapid.IntRange(1, 3).Draw(t, "nclasses")
-		perm := rapid.Permutation(dClasses).Draw(t, "classes")
-		for _, c := range perm {
-			if len(s.classes) < k && !excl[c] {
-				s.classes = append(s.classes, c)
+		if p.recFlag && pkgClasses != nil {
+			s.classes = pkgClasses
+		} else {
+			k := rapid.IntRange(1, 3).Draw(t, "nclasses")
+			perm := rapid.Permutation(dClasses).Draw(t, "classes")
+			for _, c := range perm {
+				if len(s.classes) < k && !excl[c] {
+					s.classes = append(s.classes, c)
+				}
 			}
+			sort.Strings(s.classes)
+			pkgClasses = s.classes
 		}
-		sort.Strings(s.classes)
-		if rapid.IntRange(0, 3).Draw(t, "generic") == 0 {
+		if !p.recFlag && rapid.IntRange(0, 3).Draw(t, "generic") == 0 {
 			s.params = []string{"TA", "TB"}[:rapid.IntRange(1, 2).Draw(t, "nparams")]
 		}
 		base := dBasic(p.monoidInt)
@@ -397,7 +406,34 @@ func drawDPkg(t *rapid.T, excl map[string]bool) dpkg {
 			}})
 		}
 	}
+	if p.recFlag && knownRecursiveMonoidShape(p) {
+		// recorded known finding (D16): excluded by construction so that the search continues behind it
+		p.recFlag = false
+		p.excludedKnown = true
+	}
 	return p
+}
+
+// knownRecursiveMonoidShape: @fp.Derive(recursive=true) of Monoid over a field of a generic named
+// non-struct type without a by-name instance (fp.Seq, fp.Map).
+func knownRecursiveMonoidShape(p dpkg) bool {
+	for _, s := range p.structs {
+		mon := false
+		for _, c := range s.classes {
+			if c == "Monoid" {
+				mon = true
+			}
+		}
+		if !mon {
+			continue
+		}
+		for _, f := range s.fields {
+			if strings.Contains(f.t.expr, "fp.Seq[") || strings.Contains(f.t.expr, "fp.Map[") {
+				return true
+			}
+		}
+	}
+	return false
 }
 
 func (p dpkg) source() string {
@@ -459,7 +495,14 @@ func ptrOf[T any](v T) *T { return &v }
 			fmt.Fprintf(&sb, "\t%s %s\n", f.name, e)
 		}
 		sb.WriteString("}\n\n")
+		last := s.name == p.structs[len(p.structs)-1].name
 		for _, c := range s.classes {
+			if p.recFlag {
+				if last {
+					fmt.Fprintf(&sb, "// @fp.Derive(recursive=true)\nvar _ %s.Derives[fp.%s[%s]]\n\n", dClassPkg[c], c, s.anyExpr())
+				}
+				continue
+			}
 			fmt.Fprintf(&sb, "// @fp.Derive\nvar _ %s.Derives[fp.%s[%s]]\n\n", dClassPkg[c], c, s.anyExpr())
 		}
 	}
@@ -537,7 +580,10 @@ func mustInst(name string, fn any) (any, int) {
 	sb.WriteString(out)
 	fmt.Fprintf(&sb, "var dOverrides = dOverride{IntEqMod10: %v, IntOrdReversed: %v, IntProduct: %v}\n\n", p.intEq10, p.intOrdRev, p.intProd)
 	sb.WriteString("var dCases = func() []dCase {\n\tvar cs []dCase\n")
-	for _, s := range p.structs {
+	for si, s := range p.structs {
+		if p.recFlag && si != len(p.structs)-1 {
+			continue
+		}
 		fmt.Fprintf(&sb, "\t{\n\t\tvalues := []any{\n")
 		for _, lits := range s.values {
 			fmt.Fprintf(&sb, "\t\t\t%s{", s.instExpr())
@@ -570,7 +616,7 @@ func mustInst(name string, fn any) (any, int) {
 
 func (p dpkg) describe() string {
 	var sb strings.Builder
-	fmt.Fprintf(&sb, "overrides(EqInt mod10=%v, OrdInt reversed=%v, MonoidInt product=%v)\n", p.intEq10, p.intOrdRev, p.intProd)
+	fmt.Fprintf(&sb, "overrides(EqInt mod10=%v, OrdInt reversed=%v, MonoidInt product=%v) recursive=true on last struct only: %v\n", p.intEq10, p.intOrdRev, p.intProd, p.recFlag)
 	for _, s := range p.structs {
 		fmt.Fprintf(&sb, "%s%s derive%v {", s.name, s.declParams(), s.classes)
 		for _, f := range s.fields {
@@ -655,7 +701,13 @@ const ruleC08 = "package spec drawn from a grammar: 1-3 @fp.Value structs (0-2 t
 func DeriveCheck(t *testing.T, name string, casesPerProcess int) {
 	kit.Check(t, name, ruleC08, kit.Opt{Abs: casesPerProcess, HangAfter: 20 * time.Minute}, func(rt *rapid.T, rec *kit.Rec) {
 		p := drawDPkg(rt, ExcludeDerive)
-		nt := false
+		if p.excludedKnown {
+			rec.Excluded()
+		}
+		if p.recFlag {
+			rec.Label("recursive=true")
+		}
+		nt := p.recFlag
 		for _, s := range p.structs {
 			if len(s.params) > 0 {
 				nt = true
@@ -685,6 +737,38 @@ func DeriveCheck(t *testing.T, name string, casesPerProcess int) {
 		}
 		for _, f := range fails {
 			rec.Failf(rt, "C08|"+f.sig, "%s\nspec:\n%s", f.msg, p.describe())
+		}
+	})
+}
+
+// KnownD16Check exercises the recorded known finding D16 with its fixed minimal input, so that the
+// check prints KNOWN-FINDING while the defect exists and reports nothing once it is repaired.
+func KnownD16Check(t *testing.T) {
+	kit.Plain(t, "derive/known-shape/monoid-recursive-named-generic", "fixed input: @fp.Derive(recursive=true) of fp.Monoid for a struct nesting a struct with an fp.Seq[int] field (2 fixed packages: fp.Seq and fp.Map)", func(t *testing.T, rec *kit.Rec) {
+		str := dBasic(true)[4]
+		for _, ft := range []dty{
+			{expr: "fp.Seq[int]", kind: "fp.Seq", caps: all, lit: func(*rapid.T) string { return "fp.Seq[int]{1}" }},
+			{expr: "fp.Map[string, int]", kind: "fp.Map", caps: all, lit: func(*rapid.T) string { return "fp.Map[string, int]{}" }},
+		} {
+			inner := dstruct{name: "D1", classes: []string{"Monoid"}, fields: []dfield{{name: "name", t: ft}, {name: "count", t: str}},
+				values: [][]string{{ft.lit(nil), `"mka"`}, {ft.lit(nil), `"mkb"`}}}
+			outer := dstruct{name: "D2", classes: []string{"Monoid"}, fields: []dfield{{name: "name", t: dty{expr: "D1", kind: "nested-struct", caps: all, nested: "D1"}}, {name: "count", t: str}},
+				values: [][]string{{"D1{name: " + ft.lit(nil) + `, count: "mka"}`, `"mkz"`}, {"D1{name: " + ft.lit(nil) + `, count: ""}`, `"mkb"`}}}
+			p := dpkg{structs: []dstruct{inner, outer}, recFlag: true, monoidInt: true}
+			rec.Case(true, p.describe())
+			fails, _ := runDerivePackage(p)
+			for _, f := range fails {
+				if strings.HasPrefix(f.sig, "infra") {
+					rec.PlainFail(t, "HARNESS|"+f.sig, "%s", f.msg)
+				}
+				cls := "law"
+				if strings.HasPrefix(f.sig, "compile") {
+					cls = "compile"
+				} else if strings.HasPrefix(f.sig, "gombok") {
+					cls = "gombok"
+				}
+				rec.PlainFail(t, "C08|known-shape|monoid-recursive-named-generic|"+cls, "%s\nspec:\n%s", f.msg, p.describe())
+			}
 		}
 	})
 }
